@@ -2,6 +2,7 @@
 import json, os, re
 import re
 from ..core import *
+from ..inline import inlined_body
 
 EXPLANATION = ("Shape/constant conformance of the type-checked program against tables/format_v1.json (transcribed from FORMAT.md): (R06.1) evaluated "
                "format constants, block tags and Layers bits; (R06.2) field types in declaration order of every serialised struct (normalised by rustc) "
@@ -233,6 +234,7 @@ def run(prog, rep, tier):
     # ---------------- R06.3 codec sequences
     dump = one_body(prog, rep, 'R06.3', 'mla', exact='ArchiveFileBlock::dump')
     if dump is not None:
+        dump = inlined_body(prog, dump)   # shared prefixes of the arms may be written by a private helper
         sws = [x for x in arm_of_enum_switch(prog, dump, adt='ArchiveFileBlock') if x[0] == 0 or dump.dominates(x[0], x[0])]
         sws = [x for x in sws if len(x[1]['arms']) >= 3]
         if len(sws) != 1:
@@ -270,6 +272,7 @@ def run(prog, rep, tier):
                        'writer emits %s as %s, the published layout is %s' % (v, seq, want), dump.loc(tgt))
     frm = one_body(prog, rep, 'R06.3', 'mla', exact='ArchiveFileBlock::from')
     if frm is not None:
+        frm = inlined_body(prog, frm)
         sws = [x for x in arm_of_enum_switch(prog, frm, adt='ArchiveFileBlockType')]
         if len(sws) != 1:
             rep.ob('R06.3', False, 'R06.3|%s|type-switch' % frm.nkey, 'expected one switch on ArchiveFileBlockType, found %d' % len(sws), frm.loc())
@@ -585,6 +588,7 @@ def run(prog, rep, tier):
         body = one_body(prog, rep, 'R06.8', 'mla', exact='crypto::aesgcm::AesGcm256::' + fn)
         if body is None:
             continue
+        body = inlined_body(prog, body)   # the tag computation may live in a private helper shared by both
         seeks = [b for b in body.calls() if b.term.cmethod == 'seek']
         ok = len(seeks) == 1 and const_eval(body, seeks[0].term.args[1]) == 0
         bes = [b for b in body.calls() if b.term.cmethod == 'to_be_bytes']
@@ -630,7 +634,7 @@ def r06_9(prog, rep):
             okc = any(body.dominates(c.idx, pu.idx) for pu in pushes)
             rep.ob('R06.9', okc, 'R06.9|%s|into_inner|size-recorded' % body.nkey, 'closing a brotli stream records its compressed size' if okc else
                    'a brotli stream is closed without recording its size in compressed_sizes', body.loc(c.idx))
-    rep.floor('R06.9', n, 2, 'pushes into compressed_sizes')
+    rep.floor('R06.9', n, 1, 'pushes into compressed_sizes')
 
 
 class _LocalOp:
